@@ -379,6 +379,25 @@ def rule_MP11(rep, prog, k, srcdir):
                 "an already deleted source has nothing left to wait for: dispatch_source_cancel_and_wait must not register as a waiter")
 
 
+def rule_MP12(rep, prog, k):
+    rid = rep.rule("C16-MP12", "a handler set on a source is always installed, also after the source was cancelled: every return of _dispatch_source_set_handler passes "
+                   "through the installation of the freshly allocated continuation (in place before activation, or through the barrier on the source afterwards) - a "
+                   "cancel handler registered between dispatch_source_cancel and the teardown is the one that must run, exactly once", floor=1)
+    fn = prog.fn("_dispatch_source_set_handler")
+    rep.saw(fn)
+    inst = calls_named(fn, ("_dispatch_source_handler_replace", "_dispatch_barrier_trysync_or_async_f", "_dispatch_source_set_handler_slow"))
+    first = next(iter(fn.all_insts()))
+    rets = [i for i in fn.all_insts() if i.op == "ret"]
+    if not inst or not rets:
+        rep.unknown(rid, "_dispatch_source_set_handler: installation calls not found")
+        return
+    bare = [r for r in rets if fn.inst_reaches(first, r, avoid_insts=inst)]
+    rep.require(rid, not bare, (bare[0].loc if bare else inst[0].loc), fn.name, "handler-dropped-instead-of-installed",
+                "_dispatch_source_set_handler can return without installing the handler it was given (for a source that is already cancelled it is disposed of): a cancel "
+                "handler set after dispatch_source_cancel() but before the teardown reaches the target queue never runs - or a stale, earlier one runs in its place",
+                sample={"installs": len(inst)})
+
+
 def rule_MP5(rep, prog, k):
     rid = rep.rule("C16-MP5", "cancelled before activation converges to the same final state: _dispatch_source_activate marks the source installed before it "
                    "finalises the unregistration (DELETED implies installed), so the invoke never registers the descriptor of an already finalised source", floor=2)
@@ -501,6 +520,8 @@ def run(rep, tier="quick", srcdir=None, only=None):
         rule_MP10(rep, prog, k)
     if want("C16-MP11"):
         rule_MP11(rep, prog, k, srcdir)
+    if want("C16-MP12"):
+        rule_MP12(rep, prog, k)
     if want("C17-OD15"):
         # a source whose registration failed is DELETED and marked installed in one step: otherwise the cancel wake-up tries to install it a second time
         # instead of delivering the cancel handler (shared with C17)
